@@ -10,6 +10,7 @@ CONSTANTS
 VIEW View
 INVARIANTS
   Inv_C19_Unique
+  Inv_C19_Permanent
 PROPERTIES
   Act_C19_Fresh
   Act_C19_Immutable
